@@ -390,7 +390,10 @@ def _randint(lo: int, hi: int) -> Any:
         CUR.rand_log.append((lo, hi, v))
         _LAST_RAND_LOG.append((lo, hi, v))
         return v
-    v = CUR.ctx.rand(lo, hi)
+    if getattr(CUR, 'fixed_rand', False):
+        v = lo  # timing is not the subject of this obligation: every draw takes its lower bound
+    else:
+        v = CUR.ctx.rand(lo, hi)
     CUR.rand_log.append((lo, hi, v))
     _LAST_RAND_LOG.append((lo, hi, v))
     return v
@@ -467,12 +470,13 @@ def install_stubs() -> None:
     _installed = True
 
 
-def begin(ctx: Any, start_ms: Any, rand_replay: Optional[List[Any]] = None) -> FakeLoop:
+def begin(ctx: Any, start_ms: Any, rand_replay: Optional[List[Any]] = None, fixed_rand: bool = False) -> FakeLoop:
     """Start one execution (one symbolic path or one replay): fresh loop, fresh random log.
 
     rand_replay: draws (lo, hi, value) of an earlier run to hand out again in order ("identical seeds")."""
     install_stubs()
     CUR.rand_replay = list(rand_replay) if rand_replay else None  # type: ignore[attr-defined]
+    CUR.fixed_rand = fixed_rand  # type: ignore[attr-defined]
     loop = FakeLoop(start_ms)
     CUR.loop = loop
     CUR.ctx = ctx
